@@ -74,17 +74,49 @@ Negotiate(acc, xmlOn, handlers) ==
 (* the document: title always; description, code, link only when the error has them *)
 Fields(e) == {"title"} \cup (IF e.desc THEN {"description"} ELSE {}) \cup (IF e.code THEN {"code"} ELSE {})
              \cup (IF e.link THEN {"link"} ELSE {})
+(* to_dict() is the documented customisation point: a subclass may add a field ("adds": problems),
+   drop one ("drops": description) or rename one ("renames": title -> summary).  JSON and every
+   configured media handler encode what to_dict() returns; the built-in XML writer is field based. *)
+DictFields(e) == CASE e.shape = "adds"    -> Fields(e) \cup {"problems"}
+                   [] e.shape = "drops"   -> Fields(e) \ {"description"}
+                   [] e.shape = "renames" -> (Fields(e) \ {"title"}) \cup {"summary"}
+                   [] OTHER               -> Fields(e)
+DocFields(e, kind) == IF kind \in {"json", "media"} THEN DictFields(e) ELSE IF kind = "xml" THEN Fields(e) ELSE {}
+
+(* ---- headers the header-bearing error / redirect classes derive from their constructor arguments ----
+   ctor = [kind, n, date, items, loc]:
+     "retry"     413 / 429 / 503 (retry_after): none (n = -1, ~date) -> no header; an integer n >= 0 (0 = retry
+                 now) -> Retry-After: n; a datetime -> Retry-After: its HTTP-date (written "<http-date>" here)
+     "allow"     405 (allowed_methods = items) -> Allow: the methods joined by ", " (always present)
+     "range"     416 (resource_length = n) -> Content-Range: bytes */n
+     "challenge" 401 (challenges = items) -> WWW-Authenticate: the challenges joined by ", ", none if empty
+     "location"  301/302/303/307/308 redirects (HTTPStatus, not HTTPError) -> Location: the target as given *)
+NoCtor == [kind |-> "none", n |-> -1, date |-> FALSE, items |-> <<>>, loc |-> ""]
+RECURSIVE Join(_)
+Join(q) == IF q = <<>> THEN "" ELSE IF Len(q) = 1 THEN q[1] ELSE q[1] \o ", " \o Join(Tail(q))
+H(name, value) == [name |-> name, value |-> value]
+OwnHeaders(c) ==
+    CASE c.kind = "retry"     -> IF c.date THEN {H("retry-after", "<http-date>")}
+                                 ELSE IF c.n >= 0 THEN {H("retry-after", ToString(c.n))} ELSE {}
+      [] c.kind = "allow"     -> {H("allow", Join(c.items))}
+      [] c.kind = "range"     -> {H("content-range", "bytes */" \o ToString(c.n))}
+      [] c.kind = "challenge" -> IF c.items = <<>> THEN {} ELSE {H("www-authenticate", Join(c.items))}
+      [] c.kind = "location"  -> {H("location", c.loc)}
+      [] OTHER                -> {}
+IsRedirect(e) == e.ctor.kind = "location"
 
 Render(e, acc, xmlOn, handlers) ==
     LET n == Negotiate(acc, xmlOn, handlers)
-    IN  [status |-> e.status, kind |-> n.kind, ctype |-> n.ctype, vary |-> TRUE,
-         fields |-> IF n.kind = "none" THEN {} ELSE Fields(e)]
+    IN  IF IsRedirect(e)       \* an HTTPStatus: its status and headers, no negotiated document
+        THEN [status |-> e.status, kind |-> "none", ctype |-> NONE, vary |-> FALSE, fields |-> {}, own |-> OwnHeaders(e.ctor)]
+        ELSE [status |-> e.status, kind |-> n.kind, ctype |-> n.ctype, vary |-> TRUE,
+              fields |-> DocFields(e, n.kind), own |-> OwnHeaders(e.ctor)]
 
 (* ------------------------- decision-table machine ----------------------- *)
 CONSTANTS Accepts, ExtraHandlers, Errors
 VARIABLES acc, xmlOn, extra, err, out
 vars == <<acc, xmlOn, extra, err, out>>
-Pending == [status |-> 0, kind |-> "", ctype |-> NONE, vary |-> FALSE, fields |-> {}]
+Pending == [status |-> 0, kind |-> "", ctype |-> NONE, vary |-> FALSE, fields |-> {}, own |-> {}]
 Handlers == DefaultHandlers \o extra
 Init == /\ acc \in Accepts /\ xmlOn \in BOOLEAN /\ extra \in ExtraHandlers /\ err \in Errors /\ out = Pending
 RenderError == /\ out = Pending /\ out' = Render(err, acc, xmlOn, Handlers) /\ UNCHANGED <<acc, xmlOn, extra, err>>
@@ -94,15 +126,25 @@ Spec == Init /\ [][Next]_vars
 Done == out # Pending
 Cands == Candidates(xmlOn, Handlers)
 Q(m) == Quality(m, Ranges(acc))
-OwnStatusAndVary == Done => out.status = err.status /\ out.vary
-JsonByDefault == Done /\ (acc.absent \/ (~acc.malformed /\ acc.ranges = <<AnyRange>>)) => out.kind = "json"
-KindConsistent == Done =>
+OwnStatusAndVary == Done => out.status = err.status /\ (out.vary = ~IsRedirect(err))
+(* "retry now" is a retry-after of 0, not the absence of one; every header-bearing constructor shows in the response *)
+OwnHeadersSent == Done =>
+    /\ out.own = OwnHeaders(err.ctor)
+    /\ (err.ctor.kind = "retry" /\ ~err.ctor.date /\ err.ctor.n = 0) => H("retry-after", "0") \in out.own
+    /\ (err.ctor.kind \in {"allow", "range", "location"}) => out.own # {}
+(* what a subclass makes of to_dict() reaches every representation built from the dict *)
+ToDictHonoured == Done /\ out.kind \in {"json", "media"} =>
+    /\ err.shape = "adds" => "problems" \in out.fields
+    /\ err.shape = "drops" => "description" \notin out.fields
+    /\ err.shape = "renames" => "summary" \in out.fields /\ "title" \notin out.fields
+JsonByDefault == Done /\ ~IsRedirect(err) /\ (acc.absent \/ (~acc.malformed /\ acc.ranges = <<AnyRange>>)) => out.kind = "json"
+KindConsistent == Done /\ ~IsRedirect(err) =>
     /\ out.kind = "json" => out.ctype = JSON
     /\ out.kind = "xml" => xmlOn /\ out.ctype \in {TEXTXML, APPXML} /\ ~InSeq(Handlers, out.ctype)
     /\ out.kind = "media" => InSeq(Handlers, out.ctype) /\ out.ctype # JSON
     /\ (out.kind = "none") = (out.fields = {})
 (* the client's preference is honoured: nothing it likes better (or equally, but listed first) was available *)
-ClientPreferenceHonoured == Done /\ BestMatch(Cands, Ranges(acc)) # NONE =>
+ClientPreferenceHonoured == Done /\ ~IsRedirect(err) /\ BestMatch(Cands, Ranges(acc)) # NONE =>
     /\ out.ctype = BestMatch(Cands, Ranges(acc))
     /\ Q(out.ctype) > 0
     /\ \A j \in 1..Len(Cands) : Q(Cands[j]) <= Q(out.ctype)
